@@ -22,6 +22,12 @@ class C10(Check):
             "key owner, mixed/empty RRset). Model cases: signed octets (model = hooked rawSignatureData + packSigWire "
             "= harness reference) on RRsets with arbitrary Labels, mixed spellings, names at the 63/255 limits; "
             "Verify error class given the verdict of Go's crypto on the reference octets; fields filled by Sign. "
+            "Round 4: every name comparison of Verify (DNSKEY owner / signer, RRSIG owner / RRset owner, RRset members, "
+            "signer / tail of the owner) on names that differ in exactly one octet, all 256 octets against their "
+            "0x20 twin and all pairs around the letter ranges (accepted iff the same ASCII letter up to case); the same "
+            "*RRSIG handed to several Sign calls (other owner, label count, type, class, TTL; untouched, OrigTtl cleared, "
+            "re-read from text) compared with a fresh value and RFC 4034 3.1, Sign/Verify leave their arguments "
+            "unchanged, model cases for both. "
             "A case is non-trivial when the output is not an error; distinct by hash of (function, arguments, output).")
     partial = [
         "unforgeability / correctness of Go's crypto/* is an assumption: sign_verify is proved for every signature "
